@@ -184,7 +184,13 @@ def s_reject(draw):
     k = draw(st.integers(0, len(PERTURB) - 1))
     axis = draw(st.sampled_from(["x", "y", "xy"]))
     sign = draw(st.sampled_from([1, -1]))
-    return {"base": base, "crs": draw(crs_tags()), "members": m, "perturb": k, "axis": axis, "sign": sign}
+    # the same grids in much finer units (sub-metre pixels in degrees, ~1e-6): every coefficient times 2^-q, exact in
+    # binary floating point, so the relation between the two grids - and the verdict - is unchanged
+    fine_q = 0
+    if draw(st.integers(0, 3)) == 0:
+        lin = min(math.hypot(base["affine"][0], base["affine"][3]), math.hypot(base["affine"][1], base["affine"][4]))
+        fine_q = max(0, round(math.log2(lin / draw(st.sampled_from([1e-5, 1e-6, 3e-7])))))
+    return {"base": base, "crs": draw(crs_tags()), "members": m, "perturb": k, "axis": axis, "sign": sign, "fine_q": fine_q}
 
 
 def o_reject(case, T):
@@ -193,6 +199,9 @@ def o_reject(case, T):
 
     base = case["base"]
     A = mk_affine(base["affine"])
+    if case.get("fine_q"):
+        A = Affine(*[v * 2.0 ** -case["fine_q"] for v in tuple(A)[:6]])
+        T.cls("fine_units")
     crs = mk_crs_spec(case["crs"])
     ma, mb = case["members"]
     a = _member(A, crs, ma)
